@@ -408,6 +408,69 @@ pub fn c20(opts: &Opts, out: &mut Out) {
         report(out, "drop:witness", &key, &hits, freed, &mut total_freed);
         classes.insert((n, m, t, false));
     }
+    // an external RNG that PANICS at its k-th call (an entropy source that fails aborts `OsRng` this way): whatever the
+    // prover holds at that moment is released by unwinding, and must be wiped like on any other path
+    {
+        struct PanicRng {
+            inner: rand_chacha::ChaCha12Rng,
+            at: usize,
+            n: usize,
+        }
+        impl rand_core::RngCore for PanicRng {
+            fn next_u32(&mut self) -> u32 {
+                let mut b = [0u8; 4];
+                self.fill_bytes(&mut b);
+                u32::from_le_bytes(b)
+            }
+            fn next_u64(&mut self) -> u64 {
+                let mut b = [0u8; 8];
+                self.fill_bytes(&mut b);
+                u64::from_le_bytes(b)
+            }
+            fn fill_bytes(&mut self, dest: &mut [u8]) {
+                self.n += 1;
+                if self.n == self.at {
+                    panic!("entropy source failed");
+                }
+                self.inner.fill_bytes(dest)
+            }
+            fn try_fill_bytes(&mut self, dest: &mut [u8]) -> Result<(), rand_core::Error> {
+                self.fill_bytes(dest);
+                Ok(())
+            }
+        }
+        impl rand_core::CryptoRng for PanicRng {}
+        let hook = std::panic::take_hook();
+        std::panic::set_hook(Box::new(|_| {}));
+        for (n, m, t, seeded) in [(8usize, 1usize, 2usize, true), (64, 2, 3, false)] {
+            let mut inst = rrun::random_inst(n, m, m, t, 4, seeded, &mut rng);
+            if n == 64 {
+                for (v, p) in inst.values.iter_mut().zip(inst.promises.iter_mut()) {
+                    *v = rng.next_u64() | (1u64 << 63);
+                    *p = None;
+                }
+            }
+            let stmt = inst.statement();
+            let wit = inst.witness();
+            let mut completed_at = None;
+            for at in 1..=40usize {
+                let mut tr = inst.transcript();
+                let mut prng = PanicRng { inner: chacha(9, 9), at, n: 0 };
+                register_secrets(&inst);
+                alloc::arm();
+                let r = std::panic::catch_unwind(std::panic::AssertUnwindSafe(|| rrun::Proof::prove_with_rng(&mut tr, &stmt, &wit, &mut prng).is_ok()));
+                let (hits, freed) = alloc::disarm();
+                report(out, "prove(external RNG panics)", &format!("{} panic at RNG call {}", inst.describe(), at), &hits, freed, &mut total_freed);
+                if r.is_ok() {
+                    completed_at = Some(at);
+                    break; // the prover made fewer than `at` calls: every earlier call index has been tried
+                }
+            }
+            out.oracle("C20:panicking-rng-reached", completed_at.map(|a| a > 1).unwrap_or(false), &inst.describe(), "the prover never completed (or never called the external RNG)");
+            classes.insert((n, m, t + 20, seeded));
+        }
+        std::panic::set_hook(hook);
+    }
     // owning objects overwritten in place (`clone_from`, also reached through `Vec::clone_from` / `clone_from_slice` on
     // a witness's public opening list): the block that held the old blinding factors is given up during the call
     for (dst_len, src_len) in [(1usize, 6usize), (2, 3), (3, 3), (6, 1), (1, 2)] {
